@@ -325,9 +325,8 @@ def minimise(seed, idx, div, budget=120):
     while progress and trials[0] < budget:
         progress = False
         for fi in range(len(order)):
-            f = order[fi]
-            for i in range(len(f) - 1):
-                a, b = f[i], f[i + 1]
+            for i in range(len(order[fi]) - 1):
+                a, b = order[fi][i], order[fi][i + 1]
                 if a.startswith("@") or b.startswith("@"):
                     continue
                 if base_pos[a] > base_pos[b]:
